@@ -39,6 +39,10 @@ func C12(ctx *core.Ctx, r *core.Report) {
 	c12BubbleRoots(ctx, r, begin, end)
 	c12ErrorsSurface(ctx, r)
 	c12WrapVerb(ctx, r)
+	c12SplitDropsParent(ctx, r)
+	c12EndEditUnconditional(ctx, r)
+	errorTestedBeforeNextCall(ctx, r)
+	postConstraintsAlwaysRun(ctx, r)
 }
 
 // c12Pairing: end follows begin on all exits.
